@@ -89,6 +89,12 @@ def _run_history(args, state):
         out = cc.apply_impl(c, call)
         post = cc.snap(c)
         hist.append(call)
+        if call[0] == 'reparam_block':
+            # for the model and the reference this is `replace` by the same block with new parameters
+            # (the snapshot shows a block with the parameters an evaluation uses: the operation's own)
+            old = cc.find_op([list(cy) for cy in pre[2]], call[1][0], call[1][1])
+            new = (old[0], old[1], old[2], tuple(call[2]), old[4], cc.set_params(old[5], call[2]))
+            call = ('replace', call[1], new)
         cmd = cc.model_cmd(call)
         iv = None
         if 'views' in want:
